@@ -34,7 +34,9 @@ def gen_cases(tier, seed):
         out.append({"cls": KINDS[i % 4] + ":" + ["generic", "axis", "equator", "pol-parallel"][(i // 4) % 4],
                     "kind": KINDS[i % 4], "geom": ["generic", "axis", "equator", "pol-parallel"][(i // 4) % 4],
                     "N": int(rng.choice([32, 65, 128, 513])), "vtype": ["field", "voltage"][int(rng.integers(0, 2))],
-                    "force_real": bool(rng.integers(0, 2)), "af": float(rng.uniform(0.5, 5)), "eff": float(rng.uniform(0.1, 1))})
+                    "force_real": bool(rng.integers(0, 2)),
+                    # one case in four: antenna factors from 1e-3 to 1e5 per metre and efficiencies down to 1e-9 (total gains far below 1e-8)
+                    "af": float(rng.uniform(0.5, 5)) if (i // 4) % 3 else float(10 ** rng.uniform(-3, 5)), "eff": float(rng.uniform(0.1, 1)) if (i // 4) % 3 else float(10 ** rng.uniform(-9, 0))})
     return out
 
 
